@@ -411,18 +411,21 @@ theorem getSubject_nameId {cfg : Cfg} {env : Env} {st st' : St} {a : Assertion}
     · cases h
     next st1 n hl =>
       have h1 := confirmLoop_nameId hl
+      rw [hs]
+      simp only [Option.bind_some]
       split at h
       · cases h
-      · cases h
-        rw [hs]
-        simp only [Option.bind_some]
-        split
-        · rfl
-        next hnone =>
-          rw [h1, hn]
-          cases hsn : s.nameId with
-          | none => rfl
-          | some x => simp [hsn] at hnone
+      · -- `subjectId` (Model/Sp.lean): the identifier is `s.nameId` whenever it is read at all
+        have hid : ∀ x, subjectId s = .ok x → x = s.nameId := by
+          intro x hx
+          unfold subjectId at hx
+          split at hx
+          · cases hx
+          · exact (Except.ok.inj hx).symm
+        split at h
+        · cases h
+        next hnone => cases h; rw [h1, hn]; exact hid _ hnone
+        next m hsome => cases h; exact hid _ hsome
 
 theorem checkAssertion_nameId {cfg : Cfg} {env : Env} {rs v : Bool} {st st' : St} {a : Assertion}
     (hn : st.nameId = none) (h : checkAssertion cfg env rs v st a = .ok st') :
